@@ -290,6 +290,15 @@ func (it *Interp) Step(t []string, op string) string {
 			return "err"
 		}
 		return ""
+	case "reloadres":
+		rules := make([]*hotspot.Rule, 0, len(t)-2)
+		for _, s := range t[2:] {
+			rules = append(rules, parseRule(s))
+		}
+		if _, err := hotspot.LoadRulesOfResource(t[1], rules); err != nil {
+			return "err"
+		}
+		return ""
 	case "trace":
 		if e, ok := it.entries[t[1]]; ok {
 			sentinel.TraceError(e, errBusiness)
